@@ -1,6 +1,7 @@
 open BinNums
 open BinPosDef
 open Datatypes
+open Nat
 
 module Pos :
  sig
@@ -13,6 +14,8 @@ module Pos :
   val pred_double : positive -> positive
 
   val pred : positive -> positive
+
+  val pred_N : positive -> coq_N
 
   type mask = Pos.mask =
   | IsNul
@@ -29,11 +32,25 @@ module Pos :
 
   val sub_mask_carry : positive -> positive -> mask
 
+  val mul : positive -> positive -> positive
+
+  val iter : ('a1 -> 'a1) -> 'a1 -> positive -> 'a1
+
+  val pow : positive -> positive -> positive
+
   val compare_cont : comparison -> positive -> positive -> comparison
 
   val compare : positive -> positive -> comparison
 
   val eqb : positive -> positive -> bool
+
+  val testbit : positive -> coq_N -> bool
+
+  val iter_op : ('a1 -> 'a1 -> 'a1) -> positive -> 'a1 -> 'a1
+
+  val to_nat : positive -> nat
+
+  val of_succ_nat : nat -> positive
 
   val eq_dec : positive -> positive -> bool
  end
